@@ -71,7 +71,7 @@ LevelClamp ==
 
 \* the format requested is the format produced (window_bits = 0 means raw in with_params)
 FormatAsRequested ==
-  req.api \in {"vec", "flags"} => IsZlib = req.zlib
+  req.api \in {"vec", "flags", "params"} => IsZlib = req.zlib
 
 \* vacuity guards: each antecedent above is reachable (checked by a deliberately violated
 \* invariant in the self-test config)
